@@ -208,11 +208,11 @@ def c03_curated():
         rule(H("dist", x, z_, Ctor("Dual", Bin("+", w, l))), Cl("dist", x, y, Pat(PC("Dual", PV("w")))), Cl("edge", y, z_, l)),
         rule(H("near", x, y), Cl("dist", x, y, Pat(PC("Dual", PV("d")))), If(Bin("<=", d, C(1)))),
         rule(H("dist", x, y, Ctor("Dual", C(0))), Cl("near", y, x))]))
-    P.append(Program("lat_nonkey_join", [R("s", I, I), R("m", I, I, lattice=True), R("hit", I, I), R("q", I, I)], [
-        rule(H("m", x, y), Cl("s", x, y)),
-        rule(H("m", x, y), Cl("m", z_, y), Cl("s", x, z_)),
-        rule(H("hit", x, y), Cl("m", x, v_), Cl("q", y, v_)),
-        rule(H("hit", x, x), Cl("m", x, C(2)))]))
+    # a lattice keyed on two columns read through a partial-key index (LatticeIndexType on column 1)
+    P.append(Program("lat_partial_key", [R("s", I, I, I), R("m", I, I, I, lattice=True), R("reach", I), R("q", I, I)], [
+        rule(H("m", x, y, w), Cl("s", x, y, w)),
+        rule(H("m", x, y, w), Cl("m", z_, y, w), Cl("q", x, z_)),
+        rule(H("reach", y), Cl("q", _, y), Cl("m", _, y, v_), If(Bin(">=", v_, C(1))))]))
     P.append(Program("lat_mutual", [R("e", I, I), R("s", I, I), R("la", I, I, lattice=True), R("lb", I, I, lattice=True)], [
         rule(H("la", x, y), Cl("s", x, y)),
         rule(H("lb", x, v_), Cl("la", x, v_)),
@@ -256,6 +256,10 @@ def c04_curated():
         rule(H("dist", x, z_, Ctor("Dual", Bin("+", w, V("l")))), Cl("dist", x, y, Pat(PC("Dual", PV("w")))), Cl("edge", y, z_, V("l"))),
         rule(H("cnt", x, n), Cl("edge", x, _, _), Agg(PV("n"), "count", [], "dist", [x, _, _])),
         rule(H("far", x, m_), Cl("edge", x, _, _), Agg(PV("m"), "max", ["d"], "dist", [x, _, V("d")]))]))
+    P.append(Program("agg_lattice_value_bound", [R("s", I, I), R("q", I), R("m", I, I, lattice=True), R("cnt", I, "usize"), R("nohit", I)], [
+        rule(H("m", x, y), Cl("s", x, y)),
+        rule(H("cnt", V("v"), n), Cl("q", V("v")), Agg(PV("n"), "count", [], "m", [_, V("v")])),
+        rule(H("nohit", V("v")), Cl("q", V("v")), Neg("m", [_, V("v")]))]))
     P.append(Program("agg_mean", [R("e", I, I), R("avg", I, I)], [
         rule(H("avg", x, Bin("*", m_, C(1))), Cl("e", x, _), Agg(PV("m"), "sum", ["y"], "e", [x, y]))]))
     P.append(Program("agg_bound_expr", [R("e", I, I), R("k", I), R("r", I, "usize")], [
